@@ -411,7 +411,14 @@ def search(ctx, focus=None):
     if focus:
         for d in focus.get("disagreements", []):
             if d.get("markup"):
-                todo.append((d["markup"], d.get("type", "text/html")))
+                m, typ = d["markup"], d.get("type", "text/html")
+                if typ != "text/html":
+                    # the tie's generator does not declare the namespace on NESTED svg / math; in XHTML-typed content that shape is the listed finding
+                    # `xhtml-nested-foreign-without-xmlns` and fails on the unchanged tree too: bring the input into the domain the search judges (as gen_safe_markup does)
+                    import re
+                    m = re.sub(r"<svg(?![^>]*xmlns)", '<svg xmlns="http://www.w3.org/2000/svg"', m)
+                    m = re.sub(r"<math(?![^>]*xmlns)", '<math xmlns="http://www.w3.org/1998/Math/MathML"', m)
+                todo.append((m, typ))
     for _ in range(ctx.n(1500, 50000)):
         typ = rng.choice(["text/html", "application/xhtml+xml"])
         todo.append((gen_safe_markup(rng, typ) if rng.random() < 0.75 else gen_uri_markup(rng), typ))
